@@ -42,11 +42,14 @@ NOEXTRA = ("-noGenerateSpecTE",)
 
 def model_runs(tier):
     """waves of (cfg, expectation, workers); the runs of a wave execute concurrently"""
-    waves = [[("IncludeReq", "hold", 8), ("IncludeAswFit", "hold", 8)],
-             [("IncludeAswPack", "violate", 2), ("IncludeAswTbl", "violate", 2), ("IncludeAswEof", "violate", 4),
-              ("IncludeNoLimit", "violate", 2), ("IncludeReqMac", "hold+cov", 4)]]
+    waves = [[("IncludeReq", "hold", 5), ("IncludeAswFit", "hold", 5), ("IncludeReq3", "hold", 3), ("IncludeAswFit3", "hold", 3)],
+             [("IncludeAswPack", "violate", 2), ("IncludeAswTbl", "violate", 2), ("IncludeAswEof", "violate", 3),
+              ("IncludeNoLimit", "violate", 2), ("IncludeReqMac", "hold+cov", 3), ("IncludeShift:IncludeShiftReq", "hold", 4)]]
     if tier == "thorough":
-        waves += [[("IncludeAswPackFit", "hold", 16)], [("IncludeReq6", "hold", 16)], [("IncludeAswFit6", "hold", 16)],
+        waves += [[("IncludeReq5", "hold", 8), ("IncludeAswFit5", "hold", 8)],
+                  [("IncludeShift:IncludeShiftAsw", "hold", 8), ("IncludeShift:IncludeShiftAswPack", "violate", 2), ("IncludeAswPackFit", "hold", 6)],
+                  [("IncludeShift:IncludeShiftReq5", "hold", 16)],
+                  [("IncludeReq6", "hold", 16)], [("IncludeAswFit6", "hold", 16)],
                   [("IncludeReqIL7", "hold", 16)], [("IncludeReqIF7", "hold", 16)]]
     return waves
 
@@ -58,7 +61,8 @@ def run_models(chk, tier):
     res = {}
 
     def one(name, workers, cov):
-        res[name] = vlib.tlc("Include", name, workers=workers, timeout=2400, extra=NOEXTRA, coverage=cov)
+        module, cfg = name.split(":") if ":" in name else ("Include", name)
+        res[name] = vlib.tlc(module, cfg, workers=workers, timeout=2400, extra=NOEXTRA, coverage=cov)
 
     expected = {}
     for wave in model_runs(tier):
@@ -94,6 +98,35 @@ def run_models(chk, tier):
                     raise vlib.MachineryError("includer actions never taken in the model: %s" % missing)
                 chk.extra["model_coverage"] = {k: list(v) for k, v in cov.items()}
     chk.extra["expected_model_violations"] = expected
+
+
+def run_apalache(chk, tier):
+    """Additional obligation (recorded, DESIGN.md 2.1): the pack/unpack pair at the real widths for every
+    global line below END_LINE_NO and every column <= 10^9 (spec/SrcPosApa.tla)."""
+    import shutil
+    import subprocess
+    out = {}
+    exe = shutil.which("apalache-mc")
+    if not exe:
+        chk.extra["apalache"] = "apalache-mc not found"
+        return
+    invs = [("ReqFaithful", "NoError"), ("AswFaithful", "Error")] + ([("AswFaithfulFit", "NoError")] if tier == "thorough" else [])
+    for inv, want in invs:
+        d = vlib.scratch("c15apa")
+        shutil.copy(os.path.join(vlib.SPEC, "SrcPosApa.tla"), d)
+        t0 = time.time()
+        try:
+            p = subprocess.run([exe, "check", "--length=0", "--inv=" + inv, "--out-dir=" + os.path.join(d, "out"), "SrcPosApa.tla"],
+                               cwd=d, stdout=subprocess.PIPE, stderr=subprocess.STDOUT, timeout=900)
+            txt = p.stdout.decode(errors="replace")
+            got = "NoError" if "The outcome is: NoError" in txt else "Error" if "The outcome is: Error" in txt else "unknown"
+        except subprocess.TimeoutExpired:
+            got = "timeout"
+        out[inv] = {"outcome": got, "expected": want, "wall_s": round(time.time() - t0, 1)}
+        if inv == "ReqFaithful" and got == "Error":
+            chk.violation("Apalache: the required packer is not faithful at the real widths", txt[-3000:],
+                          key={"model": "SrcPosApa", "inv": inv})
+    chk.extra["apalache"] = out
 
 
 # --------------------------------------------------------------------------
@@ -169,6 +202,7 @@ def variants(tier, faults, phase, rng):
     for k in kq:
         for br in ("then", "else", "off"):
             out.append(("if", dict(k=k, where=2 if br != "then" else 1, style=st(), branch=br)))
+        out.append(("ifinc", dict(k=k, where=2, style=st())))
         out.append(("incline", dict(k=k, where=1, style=st(), n=300, fname="gen.src")))
         out.append(("incline", dict(k=k, where=2, style=st(), n=7, fname="")))
     if not overflowing(faults):
@@ -234,7 +268,7 @@ def trace_eval(cases, cfg, nchunk):
     return verdicts, res
 
 
-def run_replay(chk, tier, build):
+def prepare_replay(chk, tier, build):
     rng = random.Random(chk.seed)
     fams = families(tier, rng)
     if tier == "quick":
@@ -247,7 +281,7 @@ def run_replay(chk, tier, build):
         vs = variants(tier, faults, phase, rng)
         if tier == "quick" and len(faults) == 1 and phase == "sem" and faults[0].kind != "undef":
             # single-fault families other than `undef': base + a seed-chosen third of the layouts
-            vs = vs[:1] + [v for v in vs[1:] if rng.random() < 0.34]
+            vs = vs[:1] + [v for v in vs[1:] if rng.random() < 0.25]
         for vi, (lay, kw) in enumerate(vs):
             try:
                 c = G.build(lay, faults, **kw)
@@ -256,6 +290,7 @@ def run_replay(chk, tier, build):
             c["id"] = len(cases) + 1
             c["fam"], c["famkey"], c["layout"], c["kw"], c["base"] = fi, fkey, lay, kw, (vi == 0)
             c["label"] = "%s | %s %s" % (fkey, lay, json.dumps(kw, sort_keys=True))
+            c["spec"] = {"faults": [[f.kind, f.i, f.col, f.pad] for f in faults], "layout": lay, "kw": kw}
             cases.append(c)
     t0 = time.time()
     with ThreadPoolExecutor(max_workers=max(4, vlib.NCPU - 2)) as ex:
@@ -288,7 +323,10 @@ def run_replay(chk, tier, build):
         rec["obs"] = [{a: o[a] for a in ("mk", "file", "line", "ln", "col", "tx")} for o in c["obs"]]
         rec["btx"], rec["bcol"] = btx, bcol
         recs.append(rec)
+    return cases, recs
 
+
+def evaluate_replay(chk, tier, cases, recs):
     nchunk = 4 if tier == "quick" else 8
     box = {}
 
@@ -310,6 +348,9 @@ def run_replay(chk, tier, build):
             chk.violation("required design violates %s at the real widths on a replay case" % v["violated"], v["trace"],
                           key={"model": "TraceSrcPosReq", "inv": v["violated"]})
     return cases, recs, vreq, vasw
+
+
+MAX_REPLAYS = 25        # violations written out in full; the rest are only counted
 
 
 def judge(chk, cases, recs, vreq, vasw):
@@ -340,10 +381,14 @@ def judge(chk, cases, recs, vreq, vasw):
         detail = {"case": c["label"], "required": vr["expect"], "as_written_model": va["expect"],
                   "observed": [{a: o[a] for a in ("mk", "file", "line", "ln", "col", "text")} for o in c["obs"]],
                   "files": {n: [{a: b for a, b in it.items() if a != "_texts"} for it in its] for n, its in c["files"].items()},
-                  "rc": c["rc"]}
+                  "rc": c["rc"], "spec": c["spec"]}
+        if key["shape"] == "other" and nbad >= MAX_REPLAYS:
+            nbad += 1
+            continue
         if chk.violation(what, detail, key=key):
             nbad += 1
-    chk.extra["mismatch_classes"] = classes
+    chk.extra["mismatch_classes"] = dict(list(classes.items())[:40])
+    chk.extra["new_violations_total"] = nbad
     return nbad
 
 
@@ -364,8 +409,27 @@ def private_build():
 
 def run(chk, tier):
     build = private_build()
-    run_models(chk, tier)
-    cases, recs, vreq, vasw = run_replay(chk, tier, build)
+    if tier == "quick":
+        # the model runs and the compilations are independent: overlap them
+        box = {}
+
+        def models():
+            try:
+                run_models(chk, tier)
+                run_apalache(chk, tier)
+            except BaseException as e:      # re-raised in the main thread
+                box["err"] = e
+        th = threading.Thread(target=models)
+        th.start()
+        prep = prepare_replay(chk, tier, build)
+        th.join()
+        if "err" in box:
+            raise box["err"]
+    else:
+        run_models(chk, tier)
+        run_apalache(chk, tier)
+        prep = prepare_replay(chk, tier, build)
+    cases, recs, vreq, vasw = evaluate_replay(chk, tier, *prep)
     judge(chk, cases, recs, vreq, vasw)
     chk.rule = ("model: every reachable state of Include (files chosen line by line, <=3 files, <=12 lines, widths 2/3); "
                 "replay: one case per (fault family = planted fault lines with their columns) x (layout: same file / included / "
@@ -380,6 +444,81 @@ def run(chk, tier):
     ]
     chk.extra["replay_cases"] = len(cases)
     chk.extra["ks"] = KS
+
+
+def _one_case(build, spec, cid=1):
+    faults = [G.Fault(kd, i, col=col, pad=pad) for kd, i, col, pad in spec["faults"]]
+    base = G.build("same", faults, k=0, where=1, style="blank")
+    c = G.build(spec["layout"], faults, **spec["kw"])
+    out = []
+    it = Interner()
+    for n, x in enumerate((base, c)):
+        x["id"], x["label"] = cid + n, "replay"
+        o = compile_case(build, x)
+        x["obs"] = G.observations(o[0][1], o[1][1], faults + x["pseudo"], it)
+        x["raw"] = o
+    ids = [f.i for f in faults] + [f.i for f in c["pseudo"]]
+    recs = []
+    for x in (base, c):
+        btx, bcol = [0] * max(ids), [0] * max(ids)
+        for o in base["obs"] + [o for o in x["obs"] if o["mk"] in [f.i for f in x["pseudo"]]]:
+            if 1 <= o["mk"] <= max(ids):
+                btx[o["mk"] - 1], bcol[o["mk"] - 1] = o["tx"], o["col"]
+        rec = G.abstract_case(x)
+        rec["obs"] = [{a: o[a] for a in ("mk", "file", "line", "ln", "col", "tx")} for o in x["obs"]]
+        rec["btx"], rec["bcol"] = btx, bcol
+        recs.append(rec)
+    return base, c, recs
+
+
+def replay(d):
+    """bin/verif replay C15 <file>: rebuild the case, run the compiler, show TLC's verdicts."""
+    spec = d["detail"]["spec"]
+    build = private_build()
+    base, c, recs = _one_case(build, spec)
+    print(c["raw"][0][1][-1500:])
+    print(c["raw"][1][1][-1500:])
+    vreq, _ = trace_eval(recs, "TraceSrcPosReq", 1)
+    vasw, _ = trace_eval(recs, "TraceSrcPosAsw", 1)
+    for name, v in (("required", vreq[2]), ("as written", vasw[2])):
+        print("%-10s match=%s expect=%s" % (name, v["match"], json.dumps(v["expect"])))
+    print("observed  %s" % json.dumps(recs[1]["obs"]))
+    return 0 if vreq[2]["match"] else 1
+
+
+def selftest():
+    """Corrupt one recorded field at a time in cases that are accepted and show that TLC rejects each
+    corrupted record (python3 -c 'import checks.c15 as c; c.selftest()' from /verif with lib on the path)."""
+    build = private_build()
+    spec = {"faults": [["undef", 1, None, "lead"], ["strlit", 2, 100, "lead"], ["macro", 3, None, "lead"]],
+            "layout": "inc", "kw": dict(k=2, where=1, style="mixed", depth=2, split=True)}
+    base, c, recs = _one_case(build, spec)
+    good = recs[1]
+    muts = []
+
+    def m(name, f):
+        r = json.loads(json.dumps(good))
+        f(r)
+        r["id"] = 100 + len(muts)
+        muts.append((name, r))
+    m("col+1", lambda r: r["obs"][0].__setitem__("col", r["obs"][0]["col"] + 1))
+    m("line+1 (file-line field)", lambda r: r["obs"][1].__setitem__("line", r["obs"][1]["line"] + 1))
+    m("ln-1 ([L C] field)", lambda r: r["obs"][1].__setitem__("ln", r["obs"][1]["ln"] - 1))
+    m("file name", lambda r: r["obs"][0].__setitem__("file", "top.as" if r["obs"][0]["file"] != "top.as" else "inc2.as"))
+    m("text", lambda r: r["obs"][2].__setitem__("tx", 77))
+    m("message dropped", lambda r: r["obs"].pop())
+    m("message duplicated", lambda r: r["obs"].append(dict(r["obs"][0])))
+    m("foreign message", lambda r: r["obs"].append(dict(r["obs"][0], mk=0, tx=78)))
+    m("abstract case: one more inserted line than rendered", lambda r: r["files"]["inc2.as"][1].__setitem__("n", r["files"]["inc2.as"][1]["n"] + 1))
+    v, _ = trace_eval([good] + [r for _, r in muts], "TraceSrcPosReq", 1)
+    ok = v[good["id"]]["match"]
+    print("uncorrupted record accepted:", ok)
+    for name, r in muts:
+        rej = not v[r["id"]]["match"]
+        ok = ok and rej
+        print("corrupted (%s): %s" % (name, "rejected" if rej else "ACCEPTED"))
+    vlib.cleanup_scratch()
+    return ok
 
 
 SELFTEST_NOTES = """
